@@ -1,3 +1,231 @@
-(* C09 property theorems (in progress) *)
-From Coq Require Import List NArith.
-From IB Require Import IO.Shards IO.Jsonl.
+(* C09: file I/O round-trips; sharded, streamed and parallel paths equal the plain ones.
+   ONLY the property theorems (each closed by `exact`) and their non-vacuity examples.
+   Models: IO/Shards.v (tilings), IO/Jsonl.v (framing, sources, writers, glob).
+   `chain a rs b` = the half-open ranges rs are contiguous, start at a and end at b.
+   serde_json / csv / parquet / glob appear as hypotheses (de, ser, csv_out, row groups, the matched
+   file list); they are validated by the correspondence runs only. *)
+From Coq Require Import List ZArith NArith Bool Permutation Sorted.
+From IB Require Import IO.Shards IO.Jsonl Proofs.ShardsProofs Proofs.JsonlProofs Proofs.JsonlGlobProofs.
+Import ListNotations.
+
+(* ---------- tilings ---------- *)
+(* build_jsonl_shards / build_csv_shards: for every total and every shard size (0 behaves as 1)
+   the ranges are contiguous from 0 to total, each non-empty and at most max per 1 long, all but
+   the last exactly that long, ceil(total / max per 1) of them *)
+Theorem c09_ranges_tile : forall total per : N,
+  chain 0 (ranges total per) total
+  /\ Forall (fun r => (fst r < snd r)%N /\ (snd r - fst r <= N.max per 1)%N) (ranges total per)
+  /\ (forall r, In r (ranges total per) -> snd r <> total -> (snd r - fst r)%N = N.max per 1)
+  /\ (total <> 0%N -> N.of_nat (length (ranges total per)) = div_ceil total (N.max per 1))
+  /\ ranges total 0 = ranges total 1.
+Proof.
+  intros total per. split; [apply ranges_chain|]. split; [apply ranges_sizes|].
+  split; [apply ranges_full|]. split; [apply ranges_length|reflexivity].
+Qed.
+
+Example c09_ranges_tile_ex :
+  ranges 10 4 = [(0, 4); (4, 8); (8, 10)]%N /\ ranges 10 0 = ranges 10 1 /\ ranges 3 100 = [(0, 3)]%N
+  /\ ranges 0 5 = [].
+Proof. vm_compute. repeat split. Qed.
+
+(* the u64 arithmetic of the shard loop stays below total + max per 1 (no wrap-around for any
+   real file) *)
+Theorem c09_ranges_no_overflow : forall total per i : N,
+  total <> 0%N -> (i < div_ceil total (N.max per 1))%N ->
+  ((i + 1) * N.max per 1 < total + N.max per 1)%N.
+Proof. exact ranges_no_overflow. Qed.
+
+(* build_parquet_shards: the `while` loop over row groups tiles 0..num_groups the same way (and
+   terminates within num_groups iterations: the model's fuel is never exhausted early) *)
+Theorem c09_group_ranges_tile : forall ng per : N,
+  chain 0 (group_ranges ng per) ng
+  /\ Forall (fun r => (fst r < snd r)%N /\ (snd r - fst r <= N.max per 1)%N) (group_ranges ng per).
+Proof. intros ng per. split; [apply group_ranges_chain|apply group_ranges_sizes]. Qed.
+
+Example c09_group_ranges_tile_ex :
+  group_ranges 7 3 = [(0, 3); (3, 6); (6, 7)]%N /\ group_ranges 2 0 = [(0, 1); (1, 2)]%N.
+Proof. vm_compute. split; reflexivity. Qed.
+
+(* write_jsonl_par (repaired): clamp(shards,1,n) ranges that are contiguous from 0 to n, each at
+   most chunk long; exactly: the ceil-division tiling by chunk followed by empty ranges (n, n) *)
+Theorem c09_par_ranges_tile : forall n shards : N,
+  chain 0 (par_ranges n shards) n
+  /\ Forall (fun r => (snd r - fst r <= par_chunk n shards)%N) (par_ranges n shards)
+  /\ (n <> 0%N ->
+      N.of_nat (length (par_ranges n shards)) = clamp shards 1 n
+      /\ par_ranges n shards
+         = ranges n (par_chunk n shards)
+           ++ repeat (n, n) (N.to_nat (clamp shards 1 n - div_ceil n (par_chunk n shards)))).
+Proof.
+  intros n shards. split; [apply par_ranges_chain|]. split; [apply par_ranges_sizes|].
+  intros Hz. split; [apply par_ranges_length; assumption|].
+  exact (par_ranges_exact n shards Hz).
+Qed.
+
+Example c09_par_ranges_tile_ex :
+  par_ranges 5 4 = [(0, 2); (2, 4); (4, 5); (5, 5)]%N
+  /\ par_ranges 100 16 = ranges 100 7 ++ [(100, 100)]%N
+  /\ par_ranges 3 0 = [(0, 3)]%N /\ par_ranges 3 99 = [(0, 1); (1, 2); (2, 3)]%N.
+Proof. vm_compute. repeat split. Qed.
+
+(* csv split_ranges: parts clamped to 1..len, indices 0..parts-1 all present (none skipped) when
+   len > 0, nothing when len = 0; contiguous from 0 to len, every range non-empty, sizes differ
+   by at most one *)
+Theorem c09_split_ranges_tile : forall len parts : N,
+  chain 0 (map snd (split_ranges len parts)) len
+  /\ Forall (fun ir => (fst (snd ir) < snd (snd ir))%N) (split_ranges len parts)
+  /\ (forall a b, In a (split_ranges len parts) -> In b (split_ranges len parts) ->
+        (rsize (snd a) <= rsize (snd b) + 1)%N)
+  /\ (len <> 0%N -> map fst (split_ranges len parts) = nseq (clamp parts 1 len))
+  /\ split_ranges 0 parts = [].
+Proof.
+  intros len parts. split; [apply split_ranges_chain|]. split.
+  - eapply Forall_impl; [|apply split_ranges_sizes]. cbn beta. intros ir H. apply H.
+  - split; [apply split_ranges_balanced|]. split; [apply split_ranges_idx|apply split_ranges_zero].
+Qed.
+
+Example c09_split_ranges_tile_ex :
+  split_ranges 10 4 = [(0, (0, 3)); (1, (3, 6)); (2, (6, 8)); (3, (8, 10))]%N
+  /\ split_ranges 2 5 = [(0, (0, 1)); (1, (1, 2))]%N /\ split_ranges 3 0 = [(0, (0, 3))]%N.
+Proof. vm_compute. repeat split. Qed.
+
+(* ---------- streamed = whole ---------- *)
+(* THE tiling consequence: slicing any list along a chain from 0 to its length loses nothing,
+   duplicates nothing and keeps the order; every slice is a valid Rust slice *)
+Theorem c09_tiles_concat : forall (A : Type) (l : list A) (rs : list range),
+  chain 0 rs (nlen l) ->
+  concat (map (slice l) rs) = l /\ Forall (fun r => valid_range (nlen l) r = true) rs.
+Proof.
+  intros A l rs H. split; [apply chain_concat_all; assumption|].
+  eapply chain_valid; [eassumption|apply N.le_refl].
+Qed.
+
+(* JSONL, blank lines included (they count for the shard boundaries and are skipped by the parser):
+   for every parser `de`, every file (list of lines) and every shard size, if the whole file reads
+   as v then the partitions of the streaming source concatenate to v and both execution modes
+   return v; if the whole read fails, both modes fail (Err sequentially, Panic in parallel) *)
+Theorem c09_streamed_eq_whole :
+  forall (R : Type) (de : list Z -> option R) (ls : list (list Z)) (per : N),
+    match read_vec de ls with
+    | Ok v =>
+        (exists parts, vec_split de ls (build_shards ls per) = Some parts /\ concat parts = v)
+        /\ stream_seq de ls per = Ok v
+        /\ stream_par de ls per = Ok v
+    | _ =>
+        vec_split de ls (build_shards ls per) = None
+        /\ stream_seq de ls per = Err
+        /\ stream_par de ls per = Panic
+    end.
+Proof. exact @streamed_eq_whole. Qed.
+
+Example c09_streamed_eq_whole_ex :
+  let de := fun l : list Z => match l with [z] => Some z | _ => None end in
+  let ls := [[65]; []; [32; 9]; [66]; [67]; []]%Z in
+  read_vec de ls = Ok [65; 66; 67]%Z
+  /\ vec_split de ls (build_shards ls 2) = Some [[65]; [66]; [67]]%Z
+  /\ stream_par de ls 2 = Ok [65; 66; 67]%Z
+  /\ stream_par de [[65]; [66; 66]]%Z 1 = Panic.
+Proof. vm_compute. repeat split. Qed.
+
+(* the range reader is the plain reader on the slice; reading range 0..total is read_jsonl_vec *)
+Theorem c09_read_range_is_slice :
+  forall (R : Type) (de : list Z -> option R) (ls : list (list Z)) (r : range),
+    read_range de ls r = read_vec de (slice ls r)
+    /\ read_range de ls (0%N, total_lines ls) = read_vec de ls.
+Proof. intros R de ls r. split; [apply read_range_spec|apply read_range_all]. Qed.
+
+(* CSV data rows / Parquet row groups: both modes of the streaming source return the rows of the
+   file, for every shard size *)
+Theorem c09_streamed_eq_whole_rows : forall (R : Type) (rows : list R) (per : N),
+  rows_stream_par rows per = rows /\ rows_stream_seq rows per = rows.
+Proof. exact @rows_streamed_eq_whole. Qed.
+
+Theorem c09_streamed_eq_whole_parquet : forall (R : Type) (groups : list (list R)) (per : N),
+  pq_stream_par groups per = pq_whole groups /\ pq_stream_seq groups per = pq_whole groups.
+Proof. exact @pq_streamed_eq_whole. Qed.
+
+Example c09_streamed_eq_whole_rows_ex :
+  rows_stream_par [1; 2; 3; 4; 5]%Z 2 = [1; 2; 3; 4; 5]%Z
+  /\ pq_stream_par [[1; 2]; [3]; [4; 5]]%Z 2 = [1; 2; 3; 4; 5]%Z
+  /\ pq_stream_seq [[1; 2]; [3]; [4; 5]]%Z 0 = [1; 2; 3; 4; 5]%Z.
+Proof. vm_compute. repeat split. Qed.
+
+(* ---------- round trip ---------- *)
+(* hypotheses = serde_json's contract for compact output: from_str inverts to_writer, the output
+   contains no raw CR / LF and is not whitespace-only *)
+Theorem c09_jsonl_roundtrip :
+  forall (R : Type) (de : list Z -> option R) (ser : R -> list Z) (rs : list R),
+    (forall r, de (ser r) = Some r) ->
+    (forall r, no_crlf (ser r) /\ blank_line (ser r) = false) ->
+    read_vec de (lines (write_all ser rs)) = Ok rs.
+Proof. exact @jsonl_roundtrip. Qed.
+
+Example c09_jsonl_roundtrip_ex :
+  let ser := fun z : Z => [123; z; 125]%Z in
+  let de := fun l : list Z => match l with [123; z; 125]%Z => Some z | _ => None end in
+  (forall r, de (ser r) = Some r)
+  /\ (forall r, (r <> 10 /\ r <> 13)%Z -> no_crlf (ser r) /\ blank_line (ser r) = false)
+  /\ lines (write_all ser [65; 66]%Z) = [[123; 65; 125]; [123; 66; 125]]%Z
+  /\ read_vec de (lines (write_all ser [65; 66]%Z)) = Ok [65; 66]%Z.
+Proof.
+  cbv zeta. split; [reflexivity|]. split; [|split; vm_compute; reflexivity].
+  intros r [H1 H2]. split; [|reflexivity].
+  repeat constructor; try discriminate; assumption.
+Qed.
+
+(* ---------- parallel writers = sequential writers ---------- *)
+(* write_jsonl_par never panics and its file is byte-for-byte the sequential file: any number of
+   records (0 included), any requested shard count *)
+Theorem c09_par_write_eq_seq_jsonl :
+  forall (R : Type) (ser : R -> list Z) (rs : list R) (shards : N),
+    write_par ser rs shards = Ok (write_all ser rs).
+Proof. exact @par_write_eq_seq_jsonl. Qed.
+
+Example c09_par_write_eq_seq_jsonl_ex :
+  write_par (fun z : Z => [z]) [65; 66; 67; 68; 69]%Z 4 = Ok [65; 10; 66; 10; 67; 10; 68; 10; 69; 10]%Z.
+Proof. vm_compute. reflexivity. Qed.
+
+(* regression documented: the shard computation before commit 0fc3451 (`start = i * chunk`
+   without the clamp) yields the range (6,5) for 5 records / 4 shards and the writer panics *)
+Theorem c09_par_write_jsonl_old_refuted :
+  In (6, 5)%N (par_ranges_old 5 4)
+  /\ write_par_old (fun z : Z => [z]) [0; 1; 2; 3; 4]%Z 4 = Panic.
+Proof. split; [exact par_ranges_old_bad|exact write_par_old_panics]. Qed.
+
+(* write_csv_par: only chunk 0 writes the header; under the csv::Writer contract (optional header
+   before the first record, then the records one after the other) the parallel file equals the
+   sequential one, n = 0 included *)
+Theorem c09_par_write_eq_seq_csv :
+  forall (R : Type) (csv_out : bool -> list R -> list Z) (hdr : list Z) (row : R -> list Z),
+    (forall h rs, csv_out h rs
+                  = (if h then match rs with [] => [] | _ => hdr end else []) ++ concat (map row rs)) ->
+    forall (h : bool) (rs : list R) (shards : N),
+      csv_write_par csv_out h rs shards = Ok (csv_write_seq csv_out h rs).
+Proof. exact @par_write_eq_seq_csv. Qed.
+
+Example c09_par_write_eq_seq_csv_ex :
+  let csv_out := fun (h : bool) (rs : list Z) =>
+    ((if h then match rs with [] => [] | _ => [72; 10] end else []) ++ concat (map (fun r => [r; 10]) rs))%Z in
+  csv_write_par csv_out true [65; 66; 67]%Z 2 = Ok [72; 10; 65; 10; 66; 10; 67; 10]%Z
+  /\ csv_write_par csv_out true [] 2 = Ok [].
+Proof. vm_compute. split; reflexivity. Qed.
+
+(* ---------- glob ---------- *)
+(* the glob readers return the concatenation of the matched files in the order of PathBuf's Ord
+   (a sorted permutation of the matches), independently of the order the matches are reported in *)
+Theorem c09_glob_concat :
+  forall (R : Type) (content : path -> list R) (matched : list path),
+    matched <> [] ->
+    read_glob (fun p => Ok (content p)) matched = Ok (concat (map content (sort_paths matched)))
+    /\ StronglySorted path_le (sort_paths matched)
+    /\ Permutation (sort_paths matched) matched
+    /\ forall matched', Permutation matched matched' ->
+         read_glob (fun p => Ok (content p)) matched' = read_glob (fun p => Ok (content p)) matched.
+Proof. exact @glob_concat. Qed.
+
+(* "a.b/x" sorts after "a/x" (component-wise), although '.' < '/' byte-wise *)
+Example c09_glob_concat_ex :
+  sort_paths [[[97; 46; 98]; [120]]; [[97]; [120]]; [[97; 45; 98]; [120]]]%Z
+  = [[[97]; [120]]; [[97; 45; 98]; [120]]; [[97; 46; 98]; [120]]]%Z
+  /\ @read_glob Z (fun _ => Ok []) [] = Err.
+Proof. vm_compute. split; reflexivity. Qed.
